@@ -64,7 +64,7 @@ def fn_for_line(meta, text_lines, ln):
     """Map an emitted line to the enclosing function (extracted or handwritten)."""
     for f in meta["functions"]:
         # (a const with a contract is emitted as `exec const .. ensures .. { .. }`: an obligation of its own)
-        if (f["kind"] == "fn" or (f["kind"] == "const" and f.get("contract"))) and f["out_lines"][0] <= ln <= f["out_lines"][1]:
+        if (f["kind"] == "fn" or (f["kind"] in ("const", "static") and f.get("contract"))) and f["out_lines"][0] <= ln <= f["out_lines"][1]:
             return (f["parent"] + "::" if f["parent"] else "") + f["name"], True
     # handwritten: search backwards for 'fn name'
     for k in range(min(ln, len(text_lines)) - 1, -1, -1):
